@@ -887,7 +887,12 @@ fn stroke_similarity(path: &PathSpec, style: &StrokeSpec, opts: &Opts, ctm: &Mat
         None => return Ok(()),
     };
     let white = Source::Solid(SolidSource { r: 255, g: 255, b: 255, a: 255 });
-    let o = DrawOptions { blend_mode: BlendMode::SrcOver, alpha: 1., antialias: if opts.aa { AntialiasMode::Gray } else { AntialiasMode::None } };
+    // Always antialiased: this is a comparison of regions. Without antialiasing a stroke thinner
+    // than a pixel legitimately vanishes wherever it lies within one pixel column ([floor(x0),
+    // floor(x1)) is empty), and whether it does depends on the last bit of its coordinates -
+    // which differ between the two renderings (a false alarm under VERIF_SEED=43, DESIGN 10.2)
+    let _ = opts;
+    let o = DrawOptions { blend_mode: BlendMode::SrcOver, alpha: 1., antialias: AntialiasMode::Gray };
     let mut a = DrawTarget::new(w, h);
     a.set_transform(&t);
     a.stroke(&mk::build_path(path), &white, &mk::build_style(style), &o);
@@ -926,7 +931,9 @@ fn curved_stroke_geometry(path: &PathSpec, style: &StrokeSpec, opts: &Opts, ctm:
         return Ok(false);
     }
     let white = Source::Solid(SolidSource { r: 255, g: 255, b: 255, a: 255 });
-    let o = DrawOptions { blend_mode: BlendMode::SrcOver, alpha: 1., antialias: if opts.aa { AntialiasMode::Gray } else { AntialiasMode::None } };
+    // always antialiased, see stroke_similarity
+    let _ = opts;
+    let o = DrawOptions { blend_mode: BlendMode::SrcOver, alpha: 1., antialias: AntialiasMode::Gray };
     let mut a = DrawTarget::new(w, h);
     a.set_transform(&t);
     a.stroke(&mk::build_path(path), &white, &mk::build_style(style), &o);
